@@ -83,6 +83,12 @@ CHECKS['C03'] = dict(level='exploration',
     note='Trusted: the independent lexer on well-lexed input; for other inputs a difference needs the lexer and the dumps to agree.',
     design='DESIGN.md §2 C03')
 
+CHECKS['C07'] = dict(level='exploration',
+    technique='runtime monitoring: region-bytes oracle (lines between sentinel-carrying marker lines, input vs output) and opacity oracle (same host, other region text, output outside the region compared) over hosts x marker styles x hostile bodies x configurations',
+    text='A disabled region (8 marker styles: block, //, doxygen, indented, trailing blanks, custom text, regex, #pragma asm) with one of 23 hostile bodies (other languages, unbalanced brackets, tabs/trailing blanks, blank-line runs, non-ASCII and invalid UTF-8, marker look-alikes, comment/string openers, directives, 5000-column line, control characters) is inserted before every line of 9 hand-written hosts (one per language) and at seeded lines of corpus files, terminated or running to end of file; corpus files are also wrapped whole. Each case is formatted under 13 curated configs (mod add/remove, blank-line, align, width, comment, indent, all sp_/nl_) or joint draws over whitespace+mod+comment options; the region lines of the output must equal the inserted ones, and replacing the region text by another body of the same shape must leave every byte outside the region unchanged.',
+    note='Trusted: region extraction by sentinel words in the marker comments; a marker comment that a comment-reflow option spreads over several lines is not judged (counted).',
+    design='DESIGN.md §2 C07')
+
 ALL = ['C%02d' % i for i in range(1, 21)]
 
 
